@@ -57,6 +57,11 @@ CLAIMED = {
          "position constants, and direction plumbing (profile half -> statement flag -> serializer -> printed ^). Relative rules: necessary "
          "conditions; equality with the reversed graph additionally needs C01's value-level part", "4 C14",
          "clone/twin comparison of normalised ASTs under a role map, constant-table agreement, argument-agreement lints at construction sites (R-TWIN, R-CONST, R-PLUMB, R-EMIT)"),
+ "C10": ("necessary structural conditions decided for all graphs and target specifications: the configured instantiation property is the only "
+         "one consulted (who-may-use audit of the rdf:type constants, provenance at the recognition sites, forwarding at every call site), a "
+         "node keeps every class/label it was selected for, tracker and strategy selection tables equal the property statement, siblings agree. "
+         "Selector parsing and SPARQL evaluation are not decided", "4 C10",
+         "who-may-use lint on constants, context-sensitive provenance over the value-flow graph, call-site forwarding lint, decision tables by abstract evaluation, twin comparison (R-CONST, R-FLOW, R-PLUMB, R-TABLE, R-TWIN, R-COUNT)"),
 }
 NA_REASON = {
  "C08": "relates the outputs of different parsers (rdflib readers, two hand-written scanners, TSV splitter, decompressors) on "
